@@ -557,7 +557,7 @@ void wl_rt_start(wl_rt *rt, int flags)
         rt->sched_kind[0] = -1;
     }
     for (int e = 1; e < nes; e++) {
-        ABT_pool ps[2];
+        ABT_pool ps[6];
         int n = 0;
         if (topo == 0 && !(flags & WL_RT_FIFO_ONLY) && plan_n(6) == 0) {
             /* the stream's pools are created by the library (no pool list): the kind follows from
@@ -588,6 +588,13 @@ void wl_rt_start(wl_rt *rt, int flags)
             rt->es_first_pool[e] = 0; /* the shared pool is pools[0] */
         if (topo != 0)
             ps[n++] = shared;
+        if (topo == 0 && !(flags & (WL_RT_NO_TOPO2 | WL_RT_PRIVATE_ONLY)) && plan_n(3) == 0) {
+            /* a stream with three or four pools of its own: every one of them is served (the
+             * work-stealing and priority schedulers treat the first and the last specially) */
+            int extra = plan_range(2, 3);
+            for (int k = 0; k < extra && rt->npools < WL_MAX_POOLS; k++)
+                ps[n++] = mkpool(rt, flags, e);
+        }
         rt->sched_kind[e] = pick_sched(flags);
         if (rt->sched_kind[e] == 4)
             ABT_OK(ABT_xstream_create(wl_make_user_sched(n, ps), &rt->xs[e]));
